@@ -126,6 +126,20 @@ func runC09(c *runCfg) error {
 			run("lengths", cols, rows, [][]int{nil, {1}, {0, 1, 0}})
 		}
 	}
+	// integer columns are sized by the column type, whatever the width of the Go integer written (int16, int32 and
+	// int64 values into int2, int4 and int8 columns, both formats)
+	{
+		cols := []colT{{name: []byte("s"), oid: 21}, {name: []byte("i"), oid: 23}, {name: []byte("b"), oid: 20}}
+		var rows [][]valT
+		for _, n := range []int64{0, 1, -1, 12, 255, 256, 32767, -32768} {
+			for _, kinds := range [][3]string{{"int2", "int2", "int2"}, {"int4", "int4", "int4"}, {"int8", "int8", "int8"}, {"int8", "int2", "int4"}, {"int4", "int8", "int2"}} {
+				rows = append(rows, []valT{{kind: kinds[0], n: n}, {kind: kinds[1], n: n}, {kind: kinds[2], n: n}})
+			}
+		}
+		for i := 0; i < len(rows); i += 10 {
+			run("int_widths", cols, rows[i:min(i+10, len(rows))], [][]int{nil, {1}, {1, 0, 1}})
+		}
+	}
 	// a portal keeps the statement it was bound to: the statement name is prepared again with another query
 	// (other columns, other rows) between Bind/Describe and Execute — the rows that arrive are the rows of the
 	// statement the portal was described with, NULLs included
